@@ -20,6 +20,11 @@ var evC05 = ev.New("C05", "same frame/key generator as C04 (key columns incl. no
 
 func TestC05(t *testing.T) {
 	rapid.Check(t, func(t *rapid.T) {
+		if hx.Rarely(t, 40, "emptycsvkeys") {
+			emptyCSVKeys(t, true)
+			evC05.Case(false, func() string { return "key columns read from CSV fields that are all empty" }, "empty-csv-keys")
+			return
+		}
 		allCols := rapid.IntRange(0, 4).Draw(t, "allcols") == 0
 		g := genGroupCase(t, !allCols)
 		if allCols {
